@@ -10,9 +10,10 @@ Definition sy : expr := ESym [121].
    and a reduced expression that is not eq to the input (with no replacement, back-substitution
    is the identity) *)
 Definition wit_clash : list expr := [EFunSym name_add [sx; sy]].
+Definition red_clash : list expr := [EAdd (NInt 0) [(sx, NInt 1); (sy, NInt 1)]].
 Theorem funsym_name_clash_refuted :
   exists red, tree_cse_lib [] wit_clash = Ok ([], red) /\ forall2b expr_eqb red wit_clash = false.
-Proof. eexists. split; vm_compute; reflexivity. Qed.
+Proof. exists red_clash. split; vm_compute; reflexivity. Qed.
 
 (* (2) pow(x) with one argument: newargs[1] is read out of range *)
 Theorem funsym_pow_arity_crash : tree_cse_lib [] [EFunSym name_pow [sx]] = ErrOOB 1 1.
@@ -30,19 +31,13 @@ Theorem piecewise_condition_refuted :
     forall2b expr_eqb back wit_pw = false /\
     check_cse wit_pw (map (fun p => (ESym (fst p), snd p)) nr) red back = false.
 Proof.
-  exists [(sym_name 0, cond_lt)]. eexists. eexists.
+  exists [(sym_name 0, cond_lt)].
+  exists [EPw [(ESym [97], EF2 TC_Equality (sym_x 0) (EBool true)); (ESym [98], EBool true)];
+          EPw [(ESym [99], EF2 TC_Equality (sym_x 0) (EBool true)); (ESym [100], EBool true)]].
+  exists [EPw [(ESym [97], EF2 TC_Equality (EBool true) cond_lt); (ESym [98], EBool true)];
+          EPw [(ESym [99], EF2 TC_Equality (EBool true) cond_lt); (ESym [100], EBool true)]].
   split; [vm_compute; reflexivity|]. split; [vm_compute; reflexivity|]. split; vm_compute; reflexivity.
 Qed.
-
-(* the guards under which the faithfulness theorems are stated *)
-Definition is_reserved_funsym (e : expr) : bool :=
-  match e with
-  | EFunSym nm _ => bytes_eqb nm name_add || bytes_eqb nm name_mul || bytes_eqb nm name_pow
-  | _ => false
-  end.
-Definition guard_reserved (es : list expr) : bool := existsb (any_node is_reserved_funsym) es.
-Definition is_piecewise (e : expr) : bool := match e with EPw _ => true | _ => false end.
-Definition guard_piecewise (es : list expr) : bool := existsb (any_node is_piecewise) es.
 
 Example witnesses_outside_guards :
   guard_reserved wit_clash = true /\ guard_piecewise wit_pw = true.
